@@ -299,6 +299,7 @@ class _FuncInline(SiteRewriter):
         ast = RenameTarget.apply(ast, subst)
 
         # merge free variables
+        moved: dict[NamedId, NamedId] = {}
         for name in ast.free_vars:
             if name in self.bound or name in self.gensym.generated:
                 # spliced into the caller, the read would see that variable
@@ -307,8 +308,20 @@ class _FuncInline(SiteRewriter):
                 # already in the environment, check that it is the same
                 val = self.env.get(str(name))
                 if not _same_captured(val, e.fn.env.get(str(name))):
-                    raise RuntimeError(f'cannot inline function `{e.fn.name}` due to conflicting free variable `{name}`')
-        self.env = self.env.merge(ast.env, keys=map(str, ast.free_vars))
+                    # a callee inlined before this one captured another value
+                    # under this name: this one's is carried under a name of its own
+                    moved[name] = self.gensym.refresh(name)
+        callee_env = ast.env
+        if moved:
+            callee_env = callee_env.copy()
+            for old, new in moved.items():
+                for scope in (callee_env.nonlocals, callee_env.globals, callee_env.builtins):
+                    if str(old) in scope:
+                        scope[str(new)] = scope[str(old)]   # (a cell stays a cell)
+                        break
+            meta = FuncMeta(ast.free_vars, ast.meta.ctx, ast.meta.spec, ast.meta.props, callee_env)
+            ast = RenameTarget.apply(FuncDef(ast.name, ast.args, ast.body, meta, loc=ast.loc), moved)
+        self.env = self.env.merge(callee_env, keys=map(str, ast.free_vars))
         self.free_vars |= ast.free_vars
 
         # bind arguments to parameters
